@@ -280,6 +280,18 @@ def db_ops(ir):
     def f(db, other):
         return db.copy()
     ops.append(("copy()", f, lambda c1, c2: dict(c1)))
+    # a source name that is not in the box (default strict_names=False) is skipped TOGETHER WITH its target: later pairs keep their partners
+    def f(db, other):
+        db.rename(["a", "nope", "c", "d"], ["a2", "nope2", "c2", "d2"])
+        return db
+    ops.append(("rename(list with a missing name->list)", f, lambda c1, c2: {{"a": "a2", "c": "c2", "d": "d2"}.get(n, n): c for n, c in c1.items()}))
+    def f(db, other):
+        return db.copy(["nope", "a", "b"], ["n3", "a3", "b3"])
+    ops.append(("copy(source with a missing name,target)", f, lambda c1, c2: {"a3": c1["a"], "b3": c1["b"]}))
+    if hasattr(ir.Databox, "shallow"):
+        def f(db, other):
+            return db.shallow(["a", "nope", "d"], ["a4", "n4", "d4"])
+        ops.append(("shallow(source with a missing name,target)", f, lambda c1, c2: {"a4": c1["a"], "d4": c1["d"]}))
     for strat in ("replace", "discard"):
         def f(db, other, strat=strat):
             db.merge(other, merge_strategy=strat)
